@@ -1,7 +1,7 @@
 from props import P
 
 CFG = P(
-        harness=["harness/C06.cc"], harness_deps=["harness/C06_r2.hh", "harness/C06_r3.hh"], srcs=["Image.cc", "Strings.cc", "Filesystem.cc", "Process.cc", "Time.cc", "Encoding.cc"],
+        harness=["harness/C06.cc", "harness/C06_r5.cc"], harness_deps=["harness/C06_r2.hh", "harness/C06_r3.hh"], srcs=["Image.cc", "Strings.cc", "Filesystem.cc", "Process.cc", "Time.cc", "Encoding.cc"],
         oracle="C06",
         flags=[], cxxflags=[], ldflags=[],
         deadline={"quick": 3600, "thorough": 10800},
